@@ -6,6 +6,9 @@ package main
 // words sweep powers of two and their neighbours (where the 64-bit clamps of the pricing formula act).
 
 import (
+	"github.com/ethereum/go-ethereum/crypto"
+	"github.com/ethereum/go-ethereum/crypto/bn256"
+
 	"bytes"
 	"context"
 	"fmt"
@@ -101,6 +104,11 @@ func cmdPrecompDiff(args []string) error {
 			for k := 0; k < c.n/40+1; k++ {
 				one(t.name, addr, "random", r.Bytes(r.Intn(400)), a, u)
 			}
+			for k := 0; k < 12+c.n/20; k++ {
+				if in := structuredPrecompileInput(r, addr); in != nil {
+					one(t.name, addr, "structured", in, a, u)
+				}
+			}
 			if addr != 5 {
 				continue
 			}
@@ -137,4 +145,115 @@ func cmdPrecompDiff(args []string) error {
 		return err
 	}
 	return writeJSON(c.out, "stats.json", stats)
+}
+
+// structuredPrecompileInput draws a mostly well-formed input for a standard precompile: valid signatures, curve points,
+// pairings that hold and that do not, small MODEXP instances with edge operands, BLAKE2 F blocks with every final flag.
+func structuredPrecompileInput(r *rng.R, addr int) []byte {
+	w32 := func(b []byte) []byte { return common.LeftPadBytes(b, 32) }
+	switch addr {
+	case 1: // ECRECOVER: hash | v | r | s
+		key, _ := crypto.ToECDSA(w32([]byte{byte(1 + r.Intn(200)), 7, 9}))
+		hash := r.Bytes(32)
+		sig, err := crypto.Sign(hash, key)
+		if err != nil {
+			return nil
+		}
+		v := new(big.Int).SetUint64(uint64(sig[64]) + 27)
+		rr, ss := sig[:32], sig[32:64]
+		switch r.Intn(8) {
+		case 0:
+			v = big.NewInt(29)
+		case 1:
+			v = new(big.Int).Lsh(big.NewInt(1), 200) // v does not fit a byte
+		case 2:
+			rr = make([]byte, 32)
+		case 3: // high s (malleable form): n - s
+			n, _ := new(big.Int).SetString("fffffffffffffffffffffffffffffffebaaedce6af48a03bbfd25e8cd0364141", 16)
+			ss = w32(new(big.Int).Sub(n, new(big.Int).SetBytes(ss)).Bytes())
+			v = new(big.Int).SetUint64(uint64(1-sig[64]) + 27)
+		}
+		in := append(append(append(append([]byte{}, hash...), w32(v.Bytes())...), rr...), ss...)
+		if r.Intn(6) == 0 {
+			in = append(in, r.Bytes(r.Intn(40))...) // trailing bytes are ignored
+		}
+		return in
+	case 5: // MODEXP: small instance, edge operands
+		pickN := func() *big.Int {
+			switch r.Intn(6) {
+			case 0:
+				return big.NewInt(0)
+			case 1:
+				return big.NewInt(1)
+			case 2:
+				return big.NewInt(2)
+			default:
+				return new(big.Int).SetBytes(r.Bytes(1 + r.Intn(40)))
+			}
+		}
+		b, e, m := pickN(), pickN(), pickN()
+		bl, el, ml := len(b.Bytes())+r.Intn(3), len(e.Bytes())+r.Intn(3), len(m.Bytes())+r.Intn(3)
+		in := append(append(w32(big.NewInt(int64(bl)).Bytes()), w32(big.NewInt(int64(el)).Bytes())...), w32(big.NewInt(int64(ml)).Bytes())...)
+		in = append(in, common.LeftPadBytes(b.Bytes(), bl)...)
+		in = append(in, common.LeftPadBytes(e.Bytes(), el)...)
+		in = append(in, common.LeftPadBytes(m.Bytes(), ml)...)
+		if r.Intn(5) == 0 && len(in) > 97 {
+			in = in[:len(in)-1-r.Intn(3)] // truncated body: zero-extended
+		}
+		return in
+	case 6, 7, 8: // alt_bn128 add / mul / pairing check
+		g1 := func(k int64) []byte { return new(bn256.G1).ScalarBaseMult(big.NewInt(k)).Marshal() }
+		g2 := func(k int64) []byte { return new(bn256.G2).ScalarBaseMult(big.NewInt(k)).Marshal() }
+		k1, k2 := int64(1+r.Intn(50)), int64(1+r.Intn(50))
+		switch addr {
+		case 6:
+			in := append(g1(k1), g1(k2)...)
+			switch r.Intn(5) {
+			case 0:
+				in = append(g1(k1), make([]byte, 64)...) // + point at infinity
+			case 1:
+				in[63] ^= 1 // not on the curve
+			case 2:
+				in = in[:64+r.Intn(64)] // truncated: zero-extended
+			}
+			return in
+		case 7:
+			sc := r.Bytes(32)
+			if r.Intn(4) == 0 {
+				sc = make([]byte, 32)
+			}
+			in := append(g1(k1), sc...)
+			if r.Intn(6) == 0 {
+				in[31] ^= 1
+			}
+			return in
+		default:
+			var in []byte
+			switch r.Intn(4) {
+			case 0: // e(aG1, bG2) * e(-abG1, G2) == 1
+				neg := new(bn256.G1).ScalarBaseMult(big.NewInt(k1 * k2))
+				neg.Neg(neg)
+				in = append(append(append(g1(k1), g2(k2)...), neg.Marshal()...), g2(1)...)
+			case 1: // a pairing product that is not 1
+				in = append(append(append(g1(k1), g2(k2)...), g1(k2)...), g2(1)...)
+			case 2:
+				in = nil // empty input: product over nothing is 1
+				return []byte{}
+			default:
+				in = append(g1(k1), g2(k2)...)
+				in[100] ^= 4 // G2 point off the curve / not in the subgroup
+			}
+			return in
+		}
+	case 9: // BLAKE2 F: rounds(4) | h(64) | m(128) | t(16) | f(1)
+		in := make([]byte, 213)
+		copy(in, r.Bytes(213))
+		rounds := uint32(r.Intn(20))
+		in[0], in[1], in[2], in[3] = byte(rounds>>24), byte(rounds>>16), byte(rounds>>8), byte(rounds)
+		in[212] = byte(r.Intn(3)) // 0, 1 valid; 2 invalid final flag
+		return in
+	case 2, 3, 4:
+		return r.Bytes(r.Intn(200))
+	}
+	return nil
 }
